@@ -10,5 +10,6 @@ CONSTANTS
   GenNsChoices = {FALSE}
   Spellings = {"rel"}
   CanonNs = FALSE
+  SupportFromRootParent = FALSE
 INVARIANT Emit
 CHECK_DEADLOCK FALSE
